@@ -22,6 +22,17 @@ func (f Facts) with(add []string) Facts {
 	for _, a := range add {
 		n[a] = true
 	}
+	// len(a) <= len(b) and len(b) <= len(a) (two guard clauses `if len(a) < len(b) {…}; if len(a) > len(b) {…}` passed) is equality
+	for k := range n {
+		if strings.HasPrefix(k, "lenle:") {
+			p := strings.SplitN(k[len("lenle:"):], "|", 2)
+			if len(p) == 2 && n["lenle:"+p[1]+"|"+p[0]] {
+				q := []string{p[0], p[1]}
+				sort.Strings(q)
+				n["leneq:"+q[0]+"|"+q[1]] = true
+			}
+		}
+	}
 	return n
 }
 
@@ -186,6 +197,37 @@ func condFacts(cond ast.Expr, positive bool) []string {
 				return []string{"eq:" + p[0] + "|" + p[1]}
 			}
 			return nil
+		}
+	}
+	// len(a) < len(b) and its relatives: what the outcome says about the order of the two lengths
+	if be, ok := cond.(*ast.BinaryExpr); ok {
+		if la, lb := lenArg(be.X), lenArg(be.Y); la != "" && lb != "" {
+			op := be.Op
+			if !positive {
+				switch op {
+				case token.LSS:
+					op = token.GEQ
+				case token.LEQ:
+					op = token.GTR
+				case token.GTR:
+					op = token.LEQ
+				case token.GEQ:
+					op = token.LSS
+				}
+			}
+			var out []string
+			switch op {
+			case token.LEQ, token.LSS:
+				out = append(out, "lenle:"+la+"|"+lb)
+			case token.GEQ, token.GTR:
+				out = append(out, "lenle:"+lb+"|"+la)
+			}
+			if positive {
+				out = append(out, "t:"+canon(cond))
+			} else {
+				out = append(out, "f:"+canon(cond))
+			}
+			return out
 		}
 	}
 	// len(a) > 0, len(a) >= 1, 0 < len(a)
